@@ -870,6 +870,60 @@ func runC07(r *Run) {
 	} else {
 		r.Bad("R15", "anchor/NewDynamicFeeChecker", "", "not found")
 	}
+	r.Rule("R16", "FLOW.the-multiplier-is-the-parameter + the-tx-total-is-kept-on-the-tx-context: (a) the minimum-gas multiplier that ApplyMessageWithConfig charges with is the fee market's parameter as stored — the EVM keeper's GetMinGasMultiplier has one return whose value derives from Params.MinGasMultiplier and from no constant or default (zero is a legal setting: 'no minimum'; replacing it by the default charges 50% of the gas limit on a chain configured for none); (b) ApplyTransaction adds a message's gas to the transaction's running total (AddTransientGasUsed) and resets the gas meter on the transaction's own context, never on the CacheContext branch the message ran on — that branch is dropped when the message fails, and the gas of a failed message would vanish from DeliverTx.GasUsed while its fee stays charged")
+	if gm, ok := P.FnOK("(x/evm/keeper.Keeper).GetMinGasMultiplier"); ok {
+		okRet, nRet := true, 0
+		eachInstr(gm, func(in ssa.Instruction) {
+			ret, isR := in.(*ssa.Return)
+			if !isR || len(ret.Results) != 1 {
+				return
+			}
+			nRet++
+			sl := backSlice(ret.Results[0])
+			if !sl.HasField("Params", "MinGasMultiplier") {
+				okRet = false
+			}
+			sl.Any(func(v ssa.Value) bool {
+				if _, isPhi := v.(*ssa.Phi); isPhi {
+					okRet = false
+				}
+				if g, isG := v.(*ssa.Global); isG && strings.Contains(g.Name(), "Default") {
+					okRet = false
+				}
+				return false
+			})
+		})
+		r.Check(okRet && nRet == 1, "R16", fnID(gm)+"#returns-the-stored-parameter", P.Pos(fnPos(gm)), "one return: Params.MinGasMultiplier, no default",
+			"GetMinGasMultiplier does not simply return the fee market's stored parameter (a default is substituted for some values): the gas charged no longer is max(EVM gas, minGasMultiplier × gasLimit) for the configured multiplier")
+	} else {
+		r.Bad("R16", "anchor/GetMinGasMultiplier", "", "not found")
+	}
+	if at, ok := P.FnOK("(*x/evm/keeper.Keeper).ApplyTransaction"); ok {
+		nAcc := 0
+		eachCall(at, func(ci CallInfo) {
+			if ci.Name != "AddTransientGasUsed" && ci.Name != "ResetGasMeterAndConsumeGas" {
+				return
+			}
+			nAcc++
+			onBranch := false
+			for _, a := range ci.Instr.Common().Args {
+				if namedName(a.Type()) != "Context" {
+					continue
+				}
+				backSlice(a).Any(func(v ssa.Value) bool {
+					if ex, isE := v.(*ssa.Extract); isE {
+						if c, isC := ex.Tuple.(*ssa.Call); isC && callInfo(c).Name == "CacheContext" {
+							onBranch = true
+						}
+					}
+					return onBranch
+				})
+			}
+			r.Check(!onBranch, "R16", fmt.Sprintf("%s#%s-%d-on-the-tx-context", fnID(at), ci.Name, nAcc), P.Pos(instrPos(ci.Instr)), "the context is the transaction's own, not the message's CacheContext branch",
+				ci.Name+" is called on the CacheContext branch the message runs on: when the message fails the branch is dropped and its gas disappears from the transaction's total (DeliverTx.GasUsed), while the fee stays charged")
+		})
+		r.Floor("R16", "gas-accounting calls in ApplyTransaction", nAcc, 3)
+	}
 	r.Rule("R11", "see C03 R5 (imported): the account that is charged the up-front fee and the account that receives the refund are both MsgEthereumTx.From — which arrives empty (EthValidateBasicDecorator refuses a pre-filled one in every mode) and has one writer, the signature decorator, storing the recovered signer unconditionally: otherwise the fee is deducted from an account named by whoever assembled the wrapper while the refund goes to the signer")
 	r.Import("R11/C03.", []string{"R5"}, runC03)
 	r.Rule("R12", "see C05 R4 (imported): the refund counter is revertible StateDB state — every write to it is journalled and nothing but AddRefund/SubRefund and a journal revert writes it; a Commit that zeroes it (go-ethereum's Finalise does, but Haqq's precompiles commit in the middle of a transaction) drops the storage refunds earned before a precompile call and the sender is charged for gas he was owed")
